@@ -125,6 +125,7 @@ CHECKS["C08"]["text"] += (" Volume: 245 x 70 000 characters (a long word / a wid
 CP_TEXT = " One name per identifier code point (a<c>b for every code point of the BMP, the emoji and tag blocks and every 64th above; thorough: every scalar value) that the format accepts and that occurs in none of its keywords, bare and inside a statement."
 for pid in ("C01", "C02", "C03", "C16"):
     CHECKS[pid]["text"] += CP_TEXT
+CHECKS["C15"]["text"] += " The text of every public formatting route is classified (both models)."
 CHECKS["C15"]["text"] += " Every ordered pair of the 540 item-subset inputs as a two-input parse_multi batch, and the whole list as one batch in both orders: the kind of every accepted position follows the stated rule."
 CHECKS["C08"]["text"] += " parse::<X> vs parse_chars::<X> for every generic target X on the thorough alphabet."
 ALL = ["C%02d" % i for i in range(1, 18)]
